@@ -281,19 +281,19 @@ pub fn meta(prop: &str) -> PropMeta {
         },
         "C14" => PropMeta {
             level: "exploration",
-            rule: "c14-sweep: 13 types x n=1..4 records of pairwise different sizes x all n! physical orders x {no filler, short filler, filler that looks like a record header}, enumerated; c14-sparse: 13 types x 5 layouts of a sparse source of up to 4 GiB whose records sit at and beyond the 2 GiB boundary, in non-physical index order; foreign-seeded: seeded files with shuffled physical order, random even-length filler (some looking like record headers) before/between/after records, short-read schedules, BufReader capacities. distinct as for C03. A quarter of all scenarios (chosen by content hash) are also written to disk and read by path: read_shapes, ShapeReader::from_path(..).read(), read_shapes_as (the .shx next to the .shp is supplied to each), and typed-by-path is compared with generic-by-path converted (C06). Half of the by-path scenarios are data sets of symbolic links into a store whose files carry other names. iter_shapes().last() on a fresh indexed reader over every layout. foreign-large: indexes of 1025, 4096, 4097, 5000, 8192 and 12288 entries. On files with null records: a typed loop up to its first error, then a second loop on the same reader - together one item per index entry. One item taken, the iterator leaked with mem::forget, then a second iteration: the remaining entries or all.",
+            rule: "c14-sweep: 13 types x n=1..4 records of pairwise different sizes x all n! physical orders x {no filler, short filler, filler that looks like a record header}, enumerated; c14-sparse: 13 types x 5 layouts of a sparse source of up to 4 GiB whose records sit at and beyond the 2 GiB boundary, in non-physical index order; foreign-seeded: seeded files with shuffled physical order, random even-length filler (some looking like record headers) before/between/after records, short-read schedules, BufReader capacities. distinct as for C03. A quarter of all scenarios (chosen by content hash) are also written to disk and read by path: read_shapes, ShapeReader::from_path(..).read(), read_shapes_as (the .shx next to the .shp is supplied to each), and typed-by-path is compared with generic-by-path converted (C06). Half of the by-path scenarios are data sets of symbolic links into a store whose files carry other names. iter_shapes().last() on a fresh indexed reader over every layout. foreign-large: indexes of 1025, 4096, 4097, 5000, 8192 and 12288 entries. On files with null records: a typed loop up to its first error, then a second loop on the same reader - together one item per index entry. One item taken, the iterator leaked with mem::forget, then a second iteration: the remaining entries or all. Every indexed file is also iterated through a caller-defined ReadableShape that decodes the whole record as Shape and converts afterwards (the library's own MismatchShapeType after the whole record was consumed), asking for the file's type and for another type: one item per index entry, each its record or the mismatch naming its type.",
             explanation: "The reference encoder places records at arbitrary offsets and writes the matching .shx; the real reader opened with_shx must yield one item per index entry in index order, each equal to the record at that entry, agree with read_nth_shape(i) and shape_count(). Reach counter: seeks issued during indexed iteration.",
             exhaustive: true,
         },
         "C08" => PropMeta {
             level: "exploration",
-            rule: "pair-sweep: 13 types x all histories up to length 4 (quick) / 5 (thorough) over {good pair a, good pair b, shape of another type, row missing a field, row with a value of the wrong field type} (a wrong-type shape never first) x ending {drop, write_shapes_and_records} x {Direct, BufWriter(64)}, enumerated completely, by-path route (Writer::from_path over pre-existing longer files, then a neighbouring data set with other rows written to a path that differs only behind a dot inside the file stem; Reader::from_path, shapefile::read) on the length-2 histories without failing rows; for histories without failing row also the complete Reader after seek(k-1), a failing typed pair iteration and seek(k); pair-large: 1025, 4097 and 6000 pairs in one file; pair-seeded: seeded histories up to length 10 with generated shapes and stacks. distinct = distinct (type, history, ending, stack) tuples. Histories without failing row are also read by a complete Reader without index through two successive pair iterations (half of the pairs, then the rest). Two successive pair iterations on one complete Reader, with and without index, the first one by take(k) or by Iterator::nth(k-1). Without index: a seek (refused for want of an index), then the sequential bulk read. (The .dbf never sits on the write-back layer: dbase never flushes its destination.)",
+            rule: "pair-sweep: 13 types x all histories up to length 4 (quick) / 5 (thorough) over {good pair a, good pair b, shape of another type, row missing a field, row with a value of the wrong field type} (a wrong-type shape never first) x ending {drop, write_shapes_and_records} x {Direct, BufWriter(64)}, enumerated completely, by-path route (Writer::from_path over pre-existing longer files, then a neighbouring data set with other rows written to a path that differs only behind a dot inside the file stem; Reader::from_path, shapefile::read) on the length-2 histories without failing rows; for histories without failing row also the complete Reader after seek(k-1), a failing typed pair iteration and seek(k); pair-large: 1025, 4097 and 6000 pairs in one file; pair-seeded: seeded histories up to length 10 with generated shapes and stacks. distinct = distinct (type, history, ending, stack) tuples. Histories without failing row are also read by a complete Reader without index through two successive pair iterations (half of the pairs, then the rest). Two successive pair iterations on one complete Reader, with and without index, the first one by take(k) or by Iterator::nth(k-1). Without index: a seek (refused for want of an index), then the sequential bulk read. (The .dbf never sits on the write-back layer: dbase never flushes its destination.) pair-large rotates seven different shapes of different sizes (a pair taken from another index entry is seen), and the after-seek clause also starts at three quarters of the file.",
             explanation: "The complete Writer runs on three simulated devices. After every call (Direct stack) the three files are scanned physically and independently (records from byte 100, index entries, whole rows after the dbf header + stray bytes); at the end the counts come from the independent decoders and the dbf header, and the complete Reader must return exactly the successfully written pairs, shape i with the row whose idx is i. Histories containing a failing row hit the two known findings listed in known_findings.jsonl.",
             exhaustive: true,
         },
         "C15" => PropMeta {
             level: "exploration",
-            rule: "all call sequences up to length 4 (quick) / 5 (thorough; length 6 over the property's own letters iterate / random access / seek / count) over the 20-letter alphabet (21 on the complete reader) {take one item and leak the iterator (mem::forget), on the complete reader a pair iteration with a caller's row type that cannot represent the rows (an honest conversion error), Iterator::last() on a new iterator, random access as a user-defined ReadableShape whose read_from panics (caught by the caller), iterate 0/1/2/all items, Iterator::nth(1) on a new iterator (what skip and step_by call), read_nth_shape(0..=3), read_nth_shape_as::<another type>(0..=1) (a random access that fails), iterate as another type and take one item (an iteration that fails), seek(0..=3), shape_count} on files of n=3 records (plus six configurations with n = 1, 2 and 4 records; the 4-record ones one call shorter), for 12 configurations: {ShapeReader with index, ShapeReader without index, complete Reader with rows carrying their index, complete Reader without index} x {records of pairwise different sizes, records of equal size}, plus 4 configurations (ShapeReader with index, complete Reader) on files re-laid out so that the physical order differs from the index order (reversed with filler; rotated with filler that looks like a record header), enumerated completely (20 + 20^2 + 20^3 + 20^4 histories per 3-record configuration in the quick tier). distinct = distinct (configuration, history) pairs; evaluations = histories executed; logical_steps = reader calls. Two more configurations read files whose records are each followed by 4 bytes of slack that the index entry's length field includes. Two configurations read through a .shp source that cannot seek at all (every seek fails) with the iterating letters only.",
+            rule: "all call sequences up to length 4 (quick) / 5 (thorough; length 6 over the property's own letters iterate / random access / seek / count) over the 20-letter alphabet (21 on the complete reader) {take one item and leak the iterator (mem::forget), on the complete reader a pair iteration with a caller's row type that cannot represent the rows (an honest conversion error), Iterator::last() on a new iterator, random access as a user-defined ReadableShape whose read_from panics (caught by the caller), iterate 0/1/2/all items, Iterator::nth(1) on a new iterator (what skip and step_by call), read_nth_shape(0..=3), read_nth_shape_as::<another type>(0..=1) (a random access that fails), iterate as another type and take one item (an iteration that fails), seek(0..=3), shape_count} on files of n=3 records (plus six configurations with n = 1, 2 and 4 records; the 4-record ones one call shorter), for 12 configurations: {ShapeReader with index, ShapeReader without index, complete Reader with rows carrying their index, complete Reader without index} x {records of pairwise different sizes, records of equal size}, plus 4 configurations (ShapeReader with index, complete Reader) on files re-laid out so that the physical order differs from the index order (reversed with filler; rotated with filler that looks like a record header), enumerated completely (20 + 20^2 + 20^3 + 20^4 histories per 3-record configuration in the quick tier). distinct = distinct (configuration, history) pairs; evaluations = histories executed; logical_steps = reader calls. Two more configurations read files whose records are each followed by 4 bytes of slack that the index entry's length field includes. Two configurations read through a .shp source that cannot seek at all (every seek fails) with the iterating letters only. Four more configurations read the slot layout and the rotated layout through sources that hand out at most 1 or 3 bytes per read call and through BufReaders of 37 and 113 bytes, so that reads come back short inside the filler between records.",
             explanation: "Each history runs on the real reader over in-memory sources; every call's result is checked against a nondeterministic reference model whose state is the set of allowed positions of the next record: fresh / after random access = {0}, after seek(k) = {min(k,n)}, after an iteration that took items from p = {p+taken, 0}. Rows of the complete Reader must carry the index of their shape.",
             exhaustive: true,
         },
@@ -317,7 +317,7 @@ pub fn meta(prop: &str) -> PropMeta {
         },
         "C12" => PropMeta {
             level: "fault_enumeration",
-            rule: "one unit = one seeded workload (write_shape / finalize retried at once while it fails, up to 3 times / finalize whose failure is ignored and followed by further writes / drop; Direct or BufWriter stack); golden run, then for every operation k issued on each destination: one-shot error, persistent error, Ok(0), EINTR at k; two and three consecutive one-shot errors starting at k (the retry fails too); disk-full at ~150 capacities per destination; every short-write chunk size from 1 byte upward with and without EINTR; 6 seeded mixed schedules. distinct = distinct (history, fault class, per-call result pattern) triples; runs whose fault never fired are not counted as distinct. c12-big-file: 34 user-defined shapes of 64 MiB on a sparse sink, a finalize at 2 GiB that fails once at its k-th operation (k = 1..6) and is not retried, further writes, drop: same file as the undisturbed run. wfault-c02: seeded workloads with finalize calls anywhere, in a third of them a shape of another type offered (rejected) after every finalize, every device operation of every explicit finalize failed once: the files left by the drop equal those of the undisturbed run. Every seek of the undisturbed run is also failed in the way 'moved, then reported an error'. wfault-large: a 70000-point polyline between two small ones and a finalize, written straight to the devices; the first 40 and last 200 .shp operations of every call and every .shx operation fail once, one-shot and persistently. c12-stderr-gone: the process environment as a fault - the same binary run as a child process whose standard error stream is a pipe without a reader (closed before the child is released), running a small history with every device operation failing in turn, persistently and once, and reporting its verdicts on standard output. wfault-large also covers shapes of 1025 and 2049 parts (the first 1200 operations of each call, the last 200, every seventh in between).",
+            rule: "one unit = one seeded workload (write_shape / finalize retried at once while it fails, up to 3 times / finalize whose failure is ignored and followed by further writes / drop; Direct or BufWriter stack); golden run, then for every operation k issued on each destination: one-shot error, persistent error, Ok(0), EINTR at k; two and three consecutive one-shot errors starting at k (the retry fails too); disk-full at ~150 capacities per destination; every short-write chunk size from 1 byte upward with and without EINTR; 6 seeded mixed schedules. distinct = distinct (history, fault class, per-call result pattern) triples; runs whose fault never fired are not counted as distinct. c12-big-file: 34 user-defined shapes of 64 MiB on a sparse sink, a finalize at 2 GiB that fails once at its k-th operation (k = 1..6) and is not retried, further writes, drop: same file as the undisturbed run. wfault-c02: seeded workloads with finalize calls anywhere, in a third of them a shape of another type offered (rejected) after every finalize, every device operation of every explicit finalize failed once: the files left by the drop equal those of the undisturbed run. Every seek of the undisturbed run is also failed in the way 'moved, then reported an error'. wfault-large: a 70000-point polyline between two small ones and a finalize, written straight to the devices; the first 40 and last 200 .shp operations of every call and every .shx operation fail once, one-shot and persistently. c12-stderr-gone: the process environment as a fault - the same binary run as a child process whose standard error stream is a pipe without a reader (closed before the child is released), running a small history with every device operation failing in turn, persistently and once, and reporting its verdicts on standard output. wfault-large also covers shapes of 1025 and 2049 parts (the first 1200 operations of each call, the last 200, every seventh in between). Every seek of the undisturbed run also fails once with each of the 40 error kinds of world::err_kind (Unsupported, NotSeekable, OutOfMemory, WouldBlock, TimedOut, ..; plain and moved-then-failed alternate), every other operation with two of them chosen by the seed.",
             explanation: "Surfacing is judged with the API-call brackets: the call whose device-event range contains the failed operation must return Err (exact also below a BufWriter). Whenever every fault of a run landed inside finalize calls (first attempts, retries, or finalizes that are not retried) and none in a write or in the drop, the final files must equal the golden ones - the history always ends with the finalize run by Drop. Masked schedules (short writes, EINTR on writes) must leave golden bytes. Drop with a persistently failing destination must not panic.",
             exhaustive: false,
         },
@@ -329,7 +329,7 @@ pub fn meta(prop: &str) -> PropMeta {
         },
         "C13" => PropMeta {
             level: "fault_enumeration",
-            rule: "one unit = one seeded valid file from the real writer (every type, 1..4 tagged shapes); every truncation length 0..=len of the .shp (read with and without index) and of the .shx; for each of 3 reader stacks (Direct, small BufReader, BufReader(8192)) x {with, without index}: every operation k of an undisturbed full traversal (open, iterate, read_nth every i) failed one-shot with a rotating error kind and with EINTR; every short-read chunk size x {no EINTR, EINTR every 2nd, every 5th call}; 8 seeded mixed schedules; the same fault sweeps on two re-laid-out versions of each file (physical order != index order, so that the indexed traversal seeks); rfault-large: 8 files whose middle record has a part of 1025..2000 points or 1030 parts, with strides away from record boundaries (11 bytes / 37 operations; 101 / 409 in the quick tier). distinct = distinct (file, fault/truncation, route) triples by hash. size_hint() is called after every item, errors included (what collect() does). The traversal ends with Iterator::last() and two more items; on the complete file read from a source that never fails no iteration item and no random access to an existing entry may be an error. Three re-laid-out versions of each file (reversed with filler; rotated with header-like filler; last record first and the others contiguous) are cut at every length and read with the complete index: record i is returned iff it lies wholly inside the retained bytes. Every seek of the traversals is also failed in the way 'moved, then reported an error'. For every cut of the .shp (layout as written) and every source plan, the complete reader over the same source with a whole .dbf whose rows the caller's row type cannot represent (every row fails to convert): the cut record, or the failing read, is still reported as that I/O error by the call in progress.",
+            rule: "one unit = one seeded valid file from the real writer (every type, 1..4 tagged shapes); every truncation length 0..=len of the .shp (read with and without index) and of the .shx; for each of 3 reader stacks (Direct, small BufReader, BufReader(8192)) x {with, without index}: every operation k of an undisturbed full traversal (open, iterate, read_nth every i) failed one-shot with a rotating error kind and with EINTR; every short-read chunk size x {no EINTR, EINTR every 2nd, every 5th call}; 8 seeded mixed schedules; the same fault sweeps on two re-laid-out versions of each file (physical order != index order, so that the indexed traversal seeks); rfault-large: 8 files whose middle record has a part of 1025..2000 points or 1030 parts, with strides away from record boundaries (11 bytes / 37 operations; 101 / 409 in the quick tier). distinct = distinct (file, fault/truncation, route) triples by hash. size_hint() is called after every item, errors included (what collect() does). The traversal ends with Iterator::last() and two more items; on the complete file read from a source that never fails no iteration item and no random access to an existing entry may be an error. Three re-laid-out versions of each file (reversed with filler; rotated with header-like filler; last record first and the others contiguous) are cut at every length and read with the complete index: record i is returned iff it lies wholly inside the retained bytes. Every seek of the traversals is also failed in the way 'moved, then reported an error'. For every cut of the .shp (layout as written) and every source plan, the complete reader over the same source with a whole .dbf whose rows the caller's row type cannot represent (every row fails to convert): the cut record, or the failing read, is still reported as that I/O error by the call in progress. Every seek of the traversal also fails once with each of the 40 error kinds of world::err_kind (plain and moved-then-failed alternate), every other operation with one more kind chosen by its position.",
             explanation: "Every reader call of the traversal is bracketed with its device events. Oracles: only genuine shapes at their positions; records wholly inside the retained bytes are returned; the cut record is Error::IoError; a hard source failure surfaces from the call in progress with that error; short reads / EINTR leave every result identical to the undisturbed traversal.",
             exhaustive: false,
         },
